@@ -254,7 +254,16 @@ pub fn run_c02(ctx: &Ctx) -> i32 {
             vio.extend(v);
         }
     }
-    println!("  [{}] steps={}", ws.label, ws.transitions);
+    // ... and read / seek scripts on read handles of both backends
+    for b in [crate::handle::HB::Mem, crate::handle::HB::Phys] {
+        for c in [&b"a"[..], &b"abcd"[..]] {
+            let (st, v) = crate::handle::reader_scripts("C02", b, c, 3, &|l: &crate::handle::Live| l.file.open_file().map_err(|e| e.to_string()));
+            ws.transitions += st.steps;
+            ws.nontrivial += st.classes.len() as u64;
+            vio.extend(v);
+        }
+    }
+    println!("  [{}; read/seek scripts of depth 3] steps={}", ws.label, ws.transitions);
     stats.push(ws);
     let counts = counts_of(&stats);
     let cov = bfs_coverage(
@@ -337,6 +346,11 @@ fn hostile_args(k: usize) -> Vec<String> {
         out.push(odd.to_string());
         out.push(format!("a/{}", odd));
     }
+    // the absolute host path of a directory next to the PhysicalFS root, spelled as a VFS path
+    // (substituted per run): harmless as long as every host path is built below the root
+    out.push("@OUTER@/escaped".to_string());
+    out.push("/@OUTER@/escaped".to_string());
+    out.push("@OUTER@/a/escaped".to_string());
     out.sort();
     out.dedup();
     out
@@ -436,6 +450,15 @@ fn hostile_sweep(
                     let _ = std::fs::create_dir_all(o.join("a"));
                     let _ = std::fs::write(o.join("S"), b"outer S");
                 }
+                let arg: String = if arg.contains("@OUTER@") {
+                    match outer.first() {
+                        Some(o) => arg.replace("@OUTER@", o.to_string_lossy().trim_start_matches('/')),
+                        None => continue,
+                    }
+                } else {
+                    arg.to_string()
+                };
+                let arg = &arg;
                 let os_before: Vec<String> = outer.iter().flat_map(|o| { let mut v = vec![]; os_tree(o, &o.join("root"), &mut v); v }).collect();
                 let raw_before: Vec<String> = b.outside_altroot(p);
                 b.ctl.arm([0, 0]);
